@@ -217,6 +217,55 @@ def static_side(chk, tier, rng):
         chk.obligation("static: " + name, "unsat" if good else "sat", kind="identity", seconds=round(time.time() - t0, 2))
         if not good:
             replay_static(chk, fm, ed, c_, rng, rows, cols, name)
+    # rows re-ordered so that another row comes first: the code's strain reference V0 = volumes[0] changes.  eps(V0', V) is an affine
+    # function of eps(V0, V) and a cubic least-squares fit is invariant under affine maps of the abscissa, so the result must not move --
+    # but only "to rounding", because the float design matrices are not exactly affinely related.  Both results are exact linear forms in
+    # the symbolic table entries; z3 (LRA) is asked for entries in [-1, 1] on which they differ by more than 1e-6 of the form's own bound
+    # (measured: the exact solutions on the two float design matrices differ by up to 1e-8 relative -- 1e-16 rounding of the strains times
+    # the conditioning of the cubic Vandermonde system -- so 1e-6 is "to rounding" for this fit, and a genuine reference slip is O(1)).
+    import z3 as _z3
+    moved = [("rows reversed (reference row moves)", list(reversed(range(nvol)))), ("rows rotated by two (reference row moves)", [2, 3, 4, 5, 0, 1])]
+    if tier != "quick":
+        for t in range(4):
+            rr = list(range(nvol))
+            rng.shuffle(rr)
+            if rr[0] != 0:
+                moved.append(("rows %s (reference row moves)" % rr, rr))
+    for name, rows in moved:
+        t1 = time.time()
+        try:
+            alt = build(rows, ["c11", "c12", "c44"])
+        except Exception as e:
+            chk.obligation("static: " + name, "sat", kind="identity", detail="raises %s" % e)
+            replay_static(chk, fm, ed, c_, rng, rows, ["c11", "c12", "c44"], name)
+            continue
+        worst = None
+        for k in base:
+            for (idx, a), (_, b) in zip(entries(base[k]), entries(alt[k])):
+                d = a - b
+                if d.is_zero():
+                    continue
+                bound = sum((abs(c) for c in a.t.values()), Fraction(0))       # sup of |a| over the box (a is linear in the entries)
+                if os.environ.get("C13_DEBUG"):
+                    print("DBG", name, k, idx, float(sum((abs(c) for c in d.t.values()), Fraction(0)) / bound), len(d.t), list(d.t.items())[:2])
+                enc = Z.Encoder()
+                td = enc.term(d)
+                cons = [_z3.Or(td > _z3.RealVal(str(bound / 10 ** 6)), td < -_z3.RealVal(str(bound / 10 ** 6)))]
+                for n_ in list(enc.zvars):
+                    cons += [enc.zvars[n_] >= -1, enc.zvars[n_] <= 1]
+                v, env = Z.check(cons, name="C13:static:" + name, enc=enc, logic="QF_LRA")
+                if v != "unsat":
+                    worst = (k, idx, v)
+                    break
+            if worst:
+                break
+        chk.obligation("static: %s: interpolated moduli agree to 1e-6 (relative to the form's bound) for all table entries in [-1,1]" % name,
+                       "unsat" if not worst else worst[2], kind="identity(LRA, exact least squares on the float design matrix)", logic="QF_LRA",
+                       seconds=round(time.time() - t1, 2), detail=dict(first_difference=str(worst[:2])) if worst else None)
+        if worst and worst[2] == "sat":
+            replay_static(chk, fm, ed, c_, rng, rows, ["c11", "c12", "c44"], name)
+        elif worst:
+            chk.inconclusive("static: " + name, "LRA query unknown")
 
 
 def phonon_volume_order(chk, tier, rng):
@@ -571,9 +620,10 @@ def main():
     chk.bound(shape="nq=3, np=3 (thorough np=6, nv=2)", q_permutations="all of q-points 2..nq", mode_permutations="seeded, Gamma acoustic slots fixed",
               static="6 volumes, rows permuted with row 0 (strain reference) first")
     chk.stub("numpy.polyfit -> exact least squares on the concrete Vandermonde matrix (static fit); eigh -> exact lift")
-    chk.assume("re-presentations keep row 0 of the static table (the code's strain reference) first")
-    chk.out_of_claim("reordering volume blocks of the phonon file (goes through qha and the scipy interpolators); permutations that move "
-                     "static row 0; rounding")
+    chk.assume("exact-identity re-presentations keep row 0 of the static table (the code's strain reference) first; re-orderings that move it "
+               "are decided to 1e-6 on concrete volume grids with symbolic table entries")
+    chk.out_of_claim("executing qha and scipy on permuted phonon volume blocks (the order is normalised before they are reached, which is what "
+                     "is decided); the affine invariance of the static fit for symbolic volumes (decided on concrete grids only); rounding")
     return chk.finish("Each re-presentation is executed symbolically through the same real code and every output polynomial is shown "
                       "equal to the one of the original presentation (weights scale symbolic).")
 
